@@ -480,6 +480,10 @@ def step(toks, ann):
 
 def main():
     out = sys.stdout
+    if os.environ.get('HPACK_VERIF_WARNINGS') == 'error':
+        # an application (or a test runner) that turns warnings into errors: whatever the library warns about now raises
+        import warnings
+        warnings.simplefilter('error')
     for line in sys.stdin:
         line = line.rstrip('\n')
         ann = {}
